@@ -512,6 +512,7 @@ theorem handle_inv (v : Variant) (env : Env) (fail : List String) (w : World) (o
   · exact updateTemplate_inv env fail w _ _ _ h
   · exact deleteTemplate_inv w _ h
   · unfold ExecInv; rw [note_view]; exact boot_inv env fail _ _
+  · unfold ExecInv; rw [dieTask_view]; exact View.EI.stop h _
 
 theorem step_inv (v : Variant) (env : Env) (fail : List String) (cut : Option Nat) (w : World) (op : Op) (h : ExecInv w) :
     ExecInv (step v env fail cut w op).1 := by
